@@ -314,6 +314,7 @@ pub fn run(tier: Tier) -> Report {
             special_strings(&mut |g| push(g));
             crate::props::c04::sharing_family(&mut |g| push(g));
             crate::fam::nested_words(&mut |g| push(g));
+            crate::fam::deep_shapes(&mut |g| push(g));
             crate::fam::order_sensitive(&mut |g| push(g));
             crate::fam::with_defs(3, 2, 1, &mut |g| push(g));
             crate::fam::single_call(crate::fam::v0(), k, &mut |g| push(g));
